@@ -164,6 +164,15 @@ func (ex *Exec) checkT(pc []*Term, c *Term, timeoutMs int) SatResult {
 		return r2
 	}
 	if hardConst {
+		// division by constants: a quick attempt with z3, then cvc5's integer encoding, then z3 with the full budget
+		quick := 1500
+		if timeoutMs < quick {
+			quick = timeoutMs
+		}
+		ex.solver.SetTimeout(quick)
+		if r := ex.solver.Check(pc, c); r != Unknown {
+			return r
+		}
 		if r := tryAlt(); r != Unknown {
 			return r
 		}
